@@ -196,7 +196,7 @@ func (ls *Locksets) closureSyncSites(fn *ssa.Function) ([]ssa.Instruction, bool)
 // addressTaken: fn is used as a value other than as the callee of a call.
 func (ls *Locksets) addressTaken(fn *ssa.Function) bool {
 	taken := false
-	for _, g := range ls.p.Fns {
+	for _, g := range ls.p.AllFns {
 		eachInstrLocal(g, func(in ssa.Instruction) {
 			for _, op := range in.Operands(nil) {
 				if *op == ssa.Value(fn) {
@@ -221,7 +221,7 @@ func ComputeLocksets(p *Prog) *Locksets {
 	dead := map[*ssa.Function]bool{}
 	boundSync := map[*ssa.Function]bool{}
 	syncSites := map[*ssa.Function][]ssa.Instruction{}
-	for _, fn := range p.Fns {
+	for _, fn := range p.AllFns {
 		if fn.Parent() == nil {
 			if sites := boundOnceSites(p, fn); len(sites) > 0 && len(p.Callers(fn)) == 0 {
 				syncSites[fn] = sites
@@ -255,7 +255,7 @@ func ComputeLocksets(p *Prog) *Locksets {
 			}
 		}
 	}
-	for _, fn := range p.Fns {
+	for _, fn := range p.AllFns {
 		if root[fn] {
 			ls.entry[fn] = lockset{}
 		} else {
@@ -264,10 +264,10 @@ func ComputeLocksets(p *Prog) *Locksets {
 	}
 	for iter := 0; iter < 50; iter++ {
 		changed := false
-		for _, fn := range p.Fns {
+		for _, fn := range p.AllFns {
 			ls.flow(fn)
 		}
-		for _, fn := range p.Fns {
+		for _, fn := range p.AllFns {
 			if root[fn] {
 				continue
 			}
@@ -290,12 +290,12 @@ func ComputeLocksets(p *Prog) *Locksets {
 			break
 		}
 	}
-	for _, fn := range p.Fns {
+	for _, fn := range p.AllFns {
 		if ls.entry[fn] == nil && !dead[fn] {
 			ls.entry[fn] = lockset{}
 		}
 	}
-	for _, fn := range p.Fns {
+	for _, fn := range p.AllFns {
 		ls.flow(fn)
 	}
 	return ls
@@ -468,7 +468,7 @@ func (ls *Locksets) deadMethod(fn *ssa.Function) bool {
 		return false
 	}
 	conv := false
-	for _, g := range ls.p.Fns {
+	for _, g := range ls.p.AllFns {
 		eachInstrLocal(g, func(in ssa.Instruction) {
 			if mi, ok := in.(*ssa.MakeInterface); ok && namedOf(mi.X.Type()) == rn {
 				conv = true
@@ -485,7 +485,7 @@ func boundOnceSites(p *Prog, fn *ssa.Function) []ssa.Instruction {
 	if fn.Object() == nil {
 		return nil
 	}
-	for _, g := range p.Fns {
+	for _, g := range p.AllFns {
 		eachInstrLocal(g, func(in ssa.Instruction) {
 			c, ok := in.(*ssa.Call)
 			if !ok || calleeName(c) != "(*sync.Once).Do" || len(c.Call.Args) < 2 {
@@ -579,7 +579,7 @@ func ruleLockBalance(c *Check, a *Analysis, rule string, locks ...string) {
 	}
 	c.Rule(rule, "every acquisition of "+strings.Join(locks, " / ")+" is released on every path to every return of the acquiring function (explicitly or by a deferred unlock), and the lock is never re-acquired while definitely held", 2)
 	sc := siteCounter{}
-	for _, fn := range p.Fns {
+	for _, fn := range p.AllFns {
 		uses := false
 		eachInstrLocal(fn, func(in ssa.Instruction) {
 			if op, ok := lockOpOf(in); ok && want[op.key] {
